@@ -20,6 +20,7 @@ import (
 	"sort"
 	"strings"
 	"sync"
+	"syscall"
 	"time"
 
 	"verif.local/simrt"
@@ -113,6 +114,14 @@ func workerMain(args []string) int {
 	}
 	w := &Worker{Prop: f.prop, Tier: f.tier, Seed: f.seed, W: f.w, N: f.n, St: newStats(f.prop), hashes: map[uint64]struct{}{},
 		seenClass: map[string]*Violation{}, Deadline: time.Now().Add(tp.Budget), MaxCases: tp.Cases, inv: loadInventory(f.inv), K: tp.K}
+	if vl, err := os.Create(filepath.Join(f.scratch, fmt.Sprintf("viol.%s.%d.jsonl", f.prop, f.w))); err == nil {
+		w.violLog = vl
+		defer vl.Close()
+	}
+	// address-space limit: a corrupted size computed by the code under test must fail fast
+	// instead of taking the machine down
+	lim := syscall.Rlimit{Cur: 24 << 30, Max: 24 << 30}
+	syscall.Setrlimit(syscall.RLIMIT_AS, &lim)
 	if f.caseLog != "" {
 		fl, err := os.Create(filepath.Join(f.caseLog, fmt.Sprintf("w%02d.log", f.w)))
 		if err == nil {
@@ -265,10 +274,22 @@ func driver(args []string) int {
 	wg.Wait()
 	tot := newStats(f.prop)
 	distinct := map[uint64]struct{}{}
+	failedWorkers := 0
 	for i, r := range res {
 		if r.err != nil {
-			fmt.Printf("ERROR: worker %d failed: %v\n%s\n", i, r.err, tail(r.errS, 30))
-			return 2
+			// a worker died (watchdog, out of memory, fatal error in the code under test): keep
+			// what it had streamed out, remember that the run is incomplete
+			failedWorkers++
+			fmt.Printf("note: worker %d failed: %v\n%s\n", i, r.err, tail(r.errS, 6))
+			if b, err := os.ReadFile(filepath.Join(scratch, fmt.Sprintf("viol.%s.%d.jsonl", f.prop, i))); err == nil {
+				for _, line := range bytes.Split(b, []byte("\n")) {
+					v := &Violation{}
+					if len(line) > 0 && json.Unmarshal(line, v) == nil && v.Replay != nil {
+						tot.Violations = append(tot.Violations, v)
+					}
+				}
+			}
+			continue
 		}
 		mergeStats(tot, r.st)
 		if hb, err := os.ReadFile(filepath.Join(scratch, fmt.Sprintf("hashes.%s.%d", f.prop, i))); err == nil {
@@ -277,6 +298,7 @@ func driver(args []string) int {
 			}
 		}
 	}
+	tot.Extra["failed_workers"] = int64(failedWorkers)
 	tot.Nontrivial = int64(len(distinct))
 
 	laneB := map[string]any(nil)
@@ -351,6 +373,10 @@ func driver(args []string) int {
 	}
 	for _, e := range tot.Errors {
 		fmt.Println("note:", e)
+	}
+	if failedWorkers > 0 && exit == 0 {
+		fmt.Printf("ERROR: %d worker(s) died and no violation was confirmed: no verdict\n", failedWorkers)
+		exit = 2
 	}
 	if tot.Extra["stalled_workers"] > 0 && exit == 0 {
 		fmt.Println("ERROR: a run stalled and no violation was confirmed: no verdict")
